@@ -18,6 +18,11 @@ var pairs = []pair{
 	{"_IK_a", "a"},
 	{"a", "a_svc_prod_us-west-2"},
 	{"svc", "prod"},
+	// ids that differ only by whitespace or letter case are different partitions (no normalisation on the way in)
+	{"a ", "a"},
+	{"a", " a"},
+	{"a\n", "a"},
+	{"A", "a"},
 }
 
 // Sessions: a record produced for Q handed to a session for P (same factory, store, caches).
